@@ -73,7 +73,28 @@ def files_of(kind, s, path):
 OPEN_STEPS = ("wtOpen", "tmpOpen", "openInPlace")
 
 
-def correspond(chk, kind, scen, events, states, audits, pre_files, post_files, target):
+def penc(s):
+    import urllib.parse
+    return urllib.parse.quote(s, safe="").replace("~", "%7E")
+
+
+def trees_of(kind, path):
+    """the tree objects the object store holds (names -> sha1 of the member bytes)"""
+    import hashlib
+    if kind == "vdir":
+        return []
+    import dulwich.repo
+    repo = dulwich.repo.Repo(path)
+    out = []
+    for sha in repo.object_store:
+        o = repo.object_store[sha]
+        if o.type_name == b"tree":
+            out.append({e.path.decode("utf-8"): hashlib.sha1(repo.object_store[e.sha].data).hexdigest() for e in o.items()})
+    repo.close()
+    return out
+
+
+def correspond(chk, kind, scen, events, states, audits, pre_files, post_files, target, pre_trees=()):
     """the Lean micro-step model against the recorded events and the audited crash states"""
     changed = [n for n in set(pre_files) | set(post_files) if pre_files.get(n) != post_files.get(n)]
     if len(changed) > 1:
@@ -86,10 +107,14 @@ def correspond(chk, kind, scen, events, states, audits, pre_files, post_files, t
         if target is None or target not in pre_files:
             return
         op = ("put", target, pre_files[target])
-    lines = ["cnew " + kind] + ["cput %s %s" % (enc(n), enc(t)) for n, t in sorted(pre_files.items())]
+    pairs = lambda d: "=" + ",".join("%s:%s" % (penc(n), penc(t)) for n, t in sorted(d.items()))
+    cls = [classify(kind, e, target) for e in events]
+    lines = ["cnew " + kind, "cstate " + pairs(pre_files)]
+    lines += ["cobj tree " + pairs(t) for t in pre_trees]
+    # `add_objects` does not write a pack whose content is on disk already
+    lines.append("cskip %d" % (1 if kind == "bare" and "addPack" not in cls else 0))
     opl = ("put %s %s" % (enc(op[1]), enc(op[2]))) if op[0] == "put" else ("del %s" % enc(op[1]))
     lines.append("cplan " + opl)
-    cls = [classify(kind, e, target) for e in events]
     # model index of every crash state
     js = []
     for st in states:
@@ -106,7 +131,7 @@ def correspond(chk, kind, scen, events, states, audits, pre_files, post_files, t
         js.append(j)
         lines.append("ccrash %s %d" % (opl, j))
     outs = run_driver("crash", lines)
-    base = len(pre_files) + 1
+    base = 3 + len(pre_trees)
     model_plan = [x for x in outs[base].split(",") if x and x not in ("wtWrite", "tmpWrite", "writeInPlace")]
     real_plan = [c for c in cls if c is not None]
     ctx = {"backend": kind, "scenario": scen, "events": [list(e) for e in events], "op": list(op)}
@@ -244,6 +269,7 @@ def run_one(chk, kind, scen):
                    "color": "#aabbcc", "comment": "a comment"}[prop]
             fn = lambda: getattr(s, "set_" + prop)(val)
         pre_files = files_of(kind, s, path)
+        pre_trees = trees_of(kind, path)
         events, err, states = crashdrv.crash_states(kind, os.path.join(scratch, "snaps"), path, fn)
         if isinstance(err, NotImplementedError):
             chk.count("not-implemented:" + kind + ":" + op)
@@ -257,7 +283,7 @@ def run_one(chk, kind, scen):
         ordered = plain + cut
         audits = crashdrv.run_audit(kind, [st["dir"] for st in ordered])
         judge(chk, kind, scen, events, ordered, audits, target, prop)
-        correspond(chk, kind, scen, events, ordered, audits, pre_files, files_of(kind, s, path), target)
+        correspond(chk, kind, scen, events, ordered, audits, pre_files, files_of(kind, s, path), target, pre_trees)
         chk.case((kind, json.dumps(scen, sort_keys=True)), nontrivial=len(events) > 0)
         chk.count("events", len(events))
         chk.traces_validated += 1
